@@ -161,6 +161,14 @@ func (r *runner) doClose(cl *CloseSpec, pos int, with []Op) {
 		r.violation("close-hang", cl.Kind+" did not return within 2 h of virtual time", true)
 	}
 	tm.Stop()
+	// attaches parked in their auth gate go on now that the close returned
+	r.mu.Lock()
+	after := r.relAfter
+	r.relAfter = nil
+	r.mu.Unlock()
+	for _, ch := range after {
+		close(ch)
+	}
 	synctest.Wait()
 	r.endBurst()
 	r.mu.Lock()
@@ -213,6 +221,11 @@ func (r *runner) checkTold(realm string) {
 	var bad []string
 	for _, s := range r.sess {
 		if !s.welcome || s.transient || s.dropped || (realm != "" && s.spec.Realm != realm) {
+			continue
+		}
+		if r.h.Template && r.closeStart >= 0 && s.welcomeAt >= r.closeStart {
+			// with a realm template a join racing or following the removal
+			// may have created the realm anew
 			continue
 		}
 		told := s.recvEOF || strings.HasSuffix(s.gone, string(wamp.ErrSystemShutdown)) ||
@@ -505,7 +518,11 @@ func (r *runner) finishC06() {
 			r.checkTold("")
 		} else {
 			r.checkTold(cl.Realm)
-			r.lateAttach(cl.Realm)
+			if r.h.Template {
+				r.orc("oracle 4 (late attach to %s): not applicable, the router's realm template creates the realm again on demand", cl.Realm)
+			} else {
+				r.lateAttach(cl.Realm)
+			}
 			r.roundTrips(cl.Realm)
 		}
 		r.emitPartial()
